@@ -475,23 +475,43 @@ def sepset(rc):
 
 
 # ------------------------------------------------------------------------------------------------
-@rule("C12.oracle", "independence_match is a pure membership test of the given assertion", floor=1)
+@rule("C12.oracle", "independence_match answers from the assertion list by decomposition and symmetry, not by literal membership only", floor=1)
 def oracle(rc):
+    """PC asks pairwise questions (X ⟂ Y | Z).  An independence list — e.g. DAG.get_independencies(), the "full independence list" of the property — states
+    set-valued assertions (A ⟂ B | Z) and is reduced, so the pairwise statement is usually NOT literally a member.  The oracle must therefore answer True when
+    some assertion has the same conditioning set and X on one side, Y on the other (decomposition), in either orientation (symmetry).  Literal membership may
+    remain as a shortcut."""
     repo = rc.repo
     fi = repo.func("pgmpy/estimators/CITests.py", "independence_match")
-    p = fi.params
+    X, Y, Z = fi.params[:3]
     rets = returns_of(fi)
-    rc.ob(f"independence_match returns {[norm(r.value) for r in rets]}")
+    rc.ob(f"independence_match returns {[norm(r.value, 60) for r in rets]}")
+    loops = [n for n in walk_no_nested(fi.node) if isinstance(n, ast.For) and isinstance(n.target, ast.Name)
+             and any(isinstance(c, ast.Call) and call_name(c) == "get_assertions" and dotted(c.func.value) == "independencies" for c in ast.walk(n.iter))]
     ok = False
-    for r in rets:
-        v = r.value
-        if isinstance(v, ast.Compare) and isinstance(v.ops[0], ast.In):
-            l = v.left
-            if isinstance(l, ast.Call) and call_name(l) == "IndependenceAssertion" and [dotted(a) for a in l.args] == p[:3] \
-                    and dotted(v.comparators[0]) == "independencies":
+    body = fi.node.body
+    for lp in loops:
+        a = lp.target.id
+        top = [k for k, st in enumerate(body) if any(x is lp for x in ast.walk(st))]
+        if not top or any(isinstance(st, (ast.Return, ast.Raise)) for st in body[:top[0]]):
+            rc.ob("independence_match: the loop over the assertions is not reachable (an unconditional return precedes it)")
+            continue
+        for st in ast.walk(lp):
+            if not isinstance(st, ast.If) or not any(isinstance(r, ast.Return) and isinstance(r.value, ast.Constant) and r.value.value is True for r in st.body):
+                continue
+            ins = {(norm(c.left), norm(c.comparators[0])) for c in ast.walk(st.test) if isinstance(c, ast.Compare) and isinstance(c.ops[0], ast.In)}
+            eqs = [c for c in ast.walk(st.test) if isinstance(c, ast.Compare) and isinstance(c.ops[0], ast.Eq) and f"{a}.event3" in (norm(c.left), norm(c.comparators[0]))]
+            need = {(X, f"{a}.event1"), (Y, f"{a}.event2"), (Y, f"{a}.event1"), (X, f"{a}.event2")}
+            rc.ob(f"independence_match: loop over the assertions; same conditioning set: {bool(eqs)}; membership atoms {sorted(ins)}")
+            if eqs and need <= ins:
                 ok = True
     if not ok:
-        rc.fail(fi, fi.node, "independence_match must return IndependenceAssertion(X, Y, Z) in independencies", construct="membership")
+        rc.fail(fi, fi.node, "independence_match answers by literal membership of IndependenceAssertion(X, Y, Z): the pairwise questions PC asks are not members of a list of "
+                "set-valued (reduced) assertions such as DAG.get_independencies(), so true independencies are answered 'dependent' (spurious edges); it must also accept an "
+                "assertion with the same conditioning set and X, Y on opposite sides, in either orientation", construct="oracle by literal membership")
+    falls = [r for r in rets if isinstance(r.value, ast.Constant) and r.value.value is False]
+    if ok and not falls:
+        rc.fail(fi, fi.node, "independence_match must answer False when no assertion supports the statement", construct="oracle default")
 
 
 # ------------------------------------------------------------------------------------------------
@@ -636,6 +656,14 @@ def defuse(rc):
     _sh.defuse_rule(rc, _sh.anchor_files("C12"))
 
 MUTANTS = [
+    dict(kind="break", name="oracle-literal-membership-only", file="pgmpy/estimators/CITests.py", expect="C12.oracle",
+         old="    if IndependenceAssertion(X, Y, Z) in independencies:\n        return True\n", new="    return IndependenceAssertion(X, Y, Z) in independencies\n"),
+    dict(kind="break", name="oracle-one-orientation-only", file="pgmpy/estimators/CITests.py", expect="C12.oracle",
+         old="            (X in assertion.event1 and Y in assertion.event2)\n            or (Y in assertion.event1 and X in assertion.event2)\n", new="            (X in assertion.event1 and Y in assertion.event2)\n"),
+    dict(kind="break", name="oracle-ignores-conditioning-set", file="pgmpy/estimators/CITests.py", expect="C12.oracle",
+         old="        if assertion.event3 == Z and (", new="        if ("),
+    dict(kind="twin", name="oracle-orientations-swapped", file="pgmpy/estimators/CITests.py",
+         old="            (X in assertion.event1 and Y in assertion.event2)\n            or (Y in assertion.event1 and X in assertion.event2)\n", new="            (Y in assertion.event1 and X in assertion.event2)\n            or (X in assertion.event1 and Y in assertion.event2)\n"),
     dict(kind="break", name="pdag-loses-isolated-variables", file=PCF, expect="C12.nodes",
          old="        result.add_nodes_from(skeleton.nodes())\n", new=""),
     dict(kind="break", name="stable-candidates-from-one-endpoint", file=PCF, expect="C12.sepset",
